@@ -159,7 +159,7 @@ def tasks(tier, seed):
     out.append({'fam': 'ws', 'first': None})
     for a in LINES:
         out.append({'fam': 'lines', 'first': a})
-    C = ['a', 'A', '1', ' ', "'", '\xdf', 'ǆ', 'ǅ', 'İ', '\xb2', '١', '_']
+    C = ['a', 'A', '1', ' ', "'", '\xdf', 'ǆ', 'ǅ', 'İ', '\xb2', '١', '_', '\xbd', '\x07']     # + vulgar fraction (numeric, no digit), BEL (not printable)
     for a in C:
         out.append({'fam': 'case', 'first': a})
     out.append({'fam': 'case', 'first': None})
@@ -267,7 +267,7 @@ def run_task(task, acc):
             run_text(t, ('S', 'T', 's'), [('splitlines', ()), ('splitlines', (True,)), ('splitlines', (False,)),
                                           ('split', ()), ('rsplit', ()), ('strip', ()), ('isspace', ())], acc)
     elif fam == 'case':
-        C = ['a', 'A', '1', ' ', "'", '\xdf', 'ǆ', 'ǅ', 'İ', '\xb2', '١', '_']
+        C = ['a', 'A', '1', ' ', "'", '\xdf', 'ǆ', 'ǅ', 'İ', '\xb2', '١', '_', '\xbd', '\x07']     # + vulgar fraction (numeric, no digit), BEL (not printable)
         if task['first'] is None:
             ts = ['']
         else:
